@@ -826,6 +826,8 @@ class Ev:
         mod = getattr(f, "__module__", "") or ""
         if mod.startswith("logging") or (isinstance(f, types.MethodType) and (getattr(f.__self__, "__name__", "") == "logging")):
             return None
+        if getattr(f, "_ek_stub", False):  # a harness-provided stub for a callee (listed in the evidence)
+            return f(*args, **kwargs)
         # repository function with symbolic arguments -> inline
         if any(is_sym(a) for a in list(args) + list(kwargs.values())):
             target = f.__func__ if isinstance(f, (staticmethod, classmethod, types.MethodType)) else f
